@@ -722,18 +722,20 @@ func (mr *machineRun) runRole(role string, t *obsTriple, idx int, cases []opCase
 				guard = g
 			}
 			guards = append(guards, guard)
-			// emits
-			match := "true"
-			if len(evs) != len(c.Emits) {
-				match = "false"
-			} else {
-				var cs []string
+			// emits: shape (how many notifications, of which kinds) and arguments (contexts and values) separately
+			shape := len(evs) == len(c.Emits)
+			var cs []string
+			if shape {
 				for i, pat := range c.Emits {
 					ex, err := parseSpecExpr(pat)
 					if err != nil {
 						mr.u.Errs = append(mr.u.Errs, fmt.Sprintf("%s:%d: %v", shortFile(c.Clause.File), c.Clause.Line, err))
-						cs = append(cs, "false")
-						continue
+						shape = false
+						break
+					}
+					if !envOld.matchEventName(ex, evs[i]) {
+						shape = false
+						break
 					}
 					m, err := envOld.matchEvent(ex, evs[i])
 					if err != nil {
@@ -742,9 +744,11 @@ func (mr *machineRun) runRole(role string, t *obsTriple, idx int, cases []opCase
 					}
 					cs = append(cs, m)
 				}
-				match = and(cs...)
 			}
-			add("emits", imp(guard, match), fmt.Sprintf("on %s: the calls made on destination (up to the first terminal) are exactly the contract's emits", role), e.st.PC)
+			add("emits", imp(guard, boolLit(shape)), fmt.Sprintf("on %s: the calls made on destination (up to the first terminal) are the notifications the contract emits, in number and kind", role), e.st.PC)
+			if shape {
+				add("emits-args", imp(guard, and(cs...)), fmt.Sprintf("on %s: each emitted notification carries exactly the context and value the contract names", role), e.st.PC)
+			}
 			// invariant after, unless the operator closed its output
 			specCloses := false
 			for _, em := range c.Emits {
@@ -789,7 +793,17 @@ func (mr *machineRun) emit(x *Exec, role string, byName map[string][]Obl, notes 
 	sort.Strings(names)
 	for _, n := range names {
 		smt, trivial, _ := mergeObls(x.D, n, byName[n])
-		o := OutObl{Name: mr.sp.Name + "/" + role + "/" + n, Props: mr.props, Layer: "M", Func: mr.sp.Name, Clause: notes[n], Pos: pos, Paths: len(byName[n]), Contract: shortFile(mr.sp.Block.File)}
+		props := mr.props
+		if n == "emits" || n == "exhaustive" {
+			// the number and kind of notifications is not a context-flow matter
+			props = nil
+			for _, p := range mr.props {
+				if p != "C09" {
+					props = append(props, p)
+				}
+			}
+		}
+		o := OutObl{Name: mr.sp.Name + "/" + role + "/" + n, Props: props, Layer: "M", Func: mr.sp.Name, Clause: notes[n], Pos: pos, Paths: len(byName[n]), Contract: shortFile(mr.sp.Block.File)}
 		if trivial {
 			o.Backend, o.Status = "structural", "discharged"
 		} else {
